@@ -16,6 +16,7 @@ import (
 	"io"
 	"log"
 	"os"
+	"runtime/debug"
 	"strings"
 	"testing"
 	"testing/synctest"
@@ -151,8 +152,11 @@ func runHistoryInBubble(kind *kvKind, u *universe, hist []int, o runOpts, ch *ch
 		}
 		if want(step, scnPrefix) {
 			robs := observe(u, r.x.Index, r.corp)
-			diffs, _ := diffObs(lobs, robs)
-			fs, err := l.findings("", lobs, diffs)
+			diffs, err := diffObs(lobs, robs)
+			var fs []finding
+			if err == nil {
+				fs, err = l.findings("", lobs, diffs)
+			}
 			if err != nil {
 				r.close()
 				return pts, feeds, err
@@ -180,8 +184,11 @@ func runHistoryInBubble(kind *kvKind, u *universe, hist []int, o runOpts, ch *ch
 			return pts, feeds, fmt.Errorf("reopen: %v", err)
 		}
 		robs := observe(u, in2.x.Index, in2.corp)
-		diffs, _ := diffObs(lastObs, robs)
-		fs, err := l.findings("", lastObs, diffs)
+		diffs, err := diffObs(lastObs, robs)
+		var fs []finding
+		if err == nil {
+			fs, err = l.findings("", lastObs, diffs)
+		}
 		if err != nil {
 			return pts, feeds, err
 		}
@@ -323,6 +330,10 @@ func (r *runner) oneExecution(kind *kvKind, s *Set, hist []int, cont bool, ch *c
 	scP := r.res.Scenario(kind.Name + "/" + scnPrefix)
 	scP.Executions++
 	scP.Transitions += int64(feeds)
+	if ee, ok := err.(engineErr); ok {
+		r.res.EngineError("set %s arrivals %v: %v", s.Name, histNames(s, hist), ee)
+		return
+	}
 	if err != nil {
 		// an indexing / restart error or a panic inside perkeep code: confirm, then report under its own class
 		for i := 0; i < 5; i++ {
@@ -390,6 +401,7 @@ func TestCheck(t *testing.T) {
 		log.SetOutput(io.Discard)
 	}
 	index.SetVerboseCorpusLogging(false)
+	debug.SetGCPercent(400)
 	res := vk.New("C06")
 	res.Rule = "every arrival permutation (plus every stated single re-delivery) of every blob set x every prefix: the full query battery on the live index+corpus is compared with index.New+KeepInMemory over a copy of the persisted rows (same KV kind; file-backed copies are closed and reopened); a case is distinct when the (arrival pattern, full live answer vector) is distinct"
 	res.Assumptions = []string{
